@@ -23,3 +23,6 @@ func verifChoose(n int) int
 func verifBaseWrites() int
 func verifIte(c bool, a, b int) int
 func verifYield()
+func verifAnd(a, b bool) bool
+func verifOr(a, b bool) bool
+func verifImplies(a, b bool) bool
